@@ -77,9 +77,10 @@ plant("c09-print_config-request-survives", "C09", "_core.py", """        finally
 plant("c09-parser_context-reset-not-in-finally", "C09", "_common.py", """    try:
         yield
     finally:
-        for token, context_var in zip(tokens, context_vars):""", """    yield
-    if True:
-        for token, context_var in zip(tokens, context_vars):""")
+        for context_var, token in context_var_tokens:
+            context_var.reset(token)""", """    yield
+    for context_var, token in context_var_tokens:
+        context_var.reset(token)""")
 plant("c09-defaults-cached-on-parser", "C09", "_core.py", """        skip_validation = deprecated_skip_check(ArgumentParser.get_defaults, kwargs, skip_validation)
         cfg = Namespace()""", """        skip_validation = deprecated_skip_check(ArgumentParser.get_defaults, kwargs, skip_validation)
         if getattr(self, "_defaults_memo", None) is not None and self._defaults_memo[0] == skip_validation:
